@@ -453,6 +453,16 @@ func (f *frame) load(addr *E, typ types.Type) *E {
 	if v, ok := f.mem.m[f.memKey(addr)]; ok {
 		return f.underRC(v)
 	}
+	// a struct value is the tuple of its fields as they are now
+	if st, ok := structOf(typ); ok && addr.Op != "global" {
+		args := make([]*E, 0, 2*st.NumFields())
+		for i := 0; i < st.NumFields(); i++ {
+			fld := st.Field(i)
+			fa := u.mk("faddr", fld.Name(), types.NewPointer(fld.Type()), addr)
+			args = append(args, u.Str(fld.Name()), f.load(fa, fld.Type()))
+		}
+		return u.mk("struct", typeStr(typ), typ, args...)
+	}
 	switch addr.Op {
 	case "faddr":
 		return u.Field(addr.Args[0], addr.Aux, typ)
@@ -498,7 +508,52 @@ func (f *frame) store(addr, val *E, rc Ref, in ssa.Instruction) {
 		old = f.loadNoMem(addr, t)
 	}
 	f.mem.m[k] = u.ITE(rc, val, old)
+	f.storeFields(addr, val, rc)
 	f.addEffect(Effect{Cond: rc, Kind: "store", Addr: addr, Val: val, Pos: in.Pos(), Ins: in, Local: local})
+}
+
+// storeFields forwards the fields of a stored struct value to later loads of
+// the individual fields (no separate effects: the store is one effect).
+func (f *frame) storeFields(addr, val *E, rc Ref) {
+	u := f.g.U
+	st, ok := structOf(val.Typ)
+	if !ok || !(val.Op == "struct" || val.Op == "zero") {
+		return
+	}
+	for i := 0; i < st.NumFields(); i++ {
+		fld := st.Field(i)
+		fa := u.mk("faddr", fld.Name(), types.NewPointer(fld.Type()), addr)
+		fv := u.Field(val, fld.Name(), fld.Type())
+		k := f.memKey(fa)
+		old, have := f.mem.m[k]
+		if !have {
+			old = f.loadNoMem(fa, fld.Type())
+		}
+		f.mem.m[k] = u.ITE(rc, fv, old)
+		f.storeFields(fa, fv, rc)
+	}
+}
+
+// structOf: t is a struct type small enough to be tracked field by field.
+func structOf(t types.Type) (*types.Struct, bool) {
+	if t == nil {
+		return nil, false
+	}
+	st, ok := t.Underlying().(*types.Struct)
+	if !ok || st.NumFields() == 0 || st.NumFields() > 32 {
+		return nil, false
+	}
+	// only the repository's own struct types (and anonymous ones): library
+	// types such as netip.Addr stay opaque values
+	if n, isNamed := t.(*types.Named); isNamed {
+		pk := n.Obj().Pkg()
+		if pk == nil || !(pk.Path() == modPath || strings.HasPrefix(pk.Path(), modPath+"/")) {
+			return nil, false
+		}
+	} else if _, isAlias := t.(*types.Alias); isAlias {
+		return structOf(types.Unalias(t))
+	}
+	return st, true
 }
 
 func (f *frame) loadNoMem(addr *E, typ types.Type) *E {
@@ -559,6 +614,15 @@ func calleeName(fn *ssa.Function) string {
 
 func (f *frame) canInline(callee *ssa.Function) bool {
 	g := f.g
+	if callee != nil && callee.Blocks != nil && (strings.HasPrefix(callee.Synthetic, "bound method wrapper") || strings.HasPrefix(callee.Synthetic, "thunk")) {
+		// x.M as a value: the wrapper only forwards to the method
+		for _, s := range g.stack {
+			if s == callee {
+				return false
+			}
+		}
+		return len(g.stack) <= g.MaxDepth+2
+	}
 	if callee == nil || callee.Blocks == nil || !g.P.IsRepoFunc(callee) {
 		return false
 	}
@@ -664,6 +728,18 @@ func (f *frame) call(in ssa.Instruction, c *ssa.CallCommon, rc Ref, typ types.Ty
 					bindings = fv.Args
 				}
 			}
+			if callee == nil {
+				// a closure made elsewhere (passed in, or a bound method value x.M)
+				if fn := f.g.fnByName[fv.Aux]; fn != nil && fn.Blocks != nil {
+					callee = fn
+					bindings = fv.Args
+				}
+			}
+		}
+		if fv.Op == "func" {
+			if fn := f.g.fnByName[fv.Aux]; fn != nil && fn.Blocks != nil {
+				callee = fn
+			}
 		}
 		if callee == nil {
 			e := u.mk("dyncall", "", typ, append([]*E{fv}, append(args, u.mk("site", f.g.fresh("c"), nil))...)...)
@@ -703,8 +779,8 @@ func (f *frame) call(in ssa.Instruction, c *ssa.CallCommon, rc Ref, typ types.Ty
 		}
 	}
 	name := calleeName(callee)
-	if f.g.Search && (name == "slices.Contains" || name == "slices.ContainsFunc") && len(args) == 2 {
-		if e := f.searchCall(in, name, args, rc); e != nil {
+	if f.g.Search && (name == "slices.Contains" || name == "slices.ContainsFunc" || name == "slices.DeleteFunc" || name == "slices.IndexFunc") && len(args) == 2 {
+		if e := f.searchCall(in, name, args, rc, typ); e != nil {
 			return e
 		}
 	}
@@ -1701,7 +1777,7 @@ func (f *frame) bindElem(test Ref, collE, idxE *E, d int, elemT types.Type) Ref 
 }
 
 // searchCall gives slices.Contains / slices.ContainsFunc the canonical form.
-func (f *frame) searchCall(in ssa.Instruction, name string, args []*E, rc Ref) *E {
+func (f *frame) searchCall(in ssa.Instruction, name string, args []*E, rc Ref, typ types.Type) *E {
 	u := f.g.U
 	coll := args[0]
 	d := f.depthBase
@@ -1755,5 +1831,9 @@ func (f *frame) searchCall(in ssa.Instruction, name string, args []*E, rc Ref) *
 	_ = n0
 	f.g.Subs = append(f.g.Subs, sub)
 	v := f.retValue(sub, rc, types.Typ[types.Bool])
+	if name == "slices.DeleteFunc" || name == "slices.IndexFunc" {
+		// the predicate as a formula over the bound element: lambda<d>(P)
+		return u.mk("call", name, typ, coll, u.mk("lambda", fmt.Sprint(d), nil, u.Bool(u.ToBool(v))))
+	}
 	return u.Bool(u.Exists(coll, u.ToBool(v)))
 }
